@@ -412,7 +412,11 @@ def extend(run: Run, prop: str, tier: str, rnd: random.Random) -> None:
                 if quick and n >= L - 1 and rnd.random() < (0.8 if n == L else 0.5):
                     continue
                 fam, port = (("ET", 8899), ("DT", 8899), ("ET", 502), ("ES", 8899))[(len(progs)) % 4]
-                progs.append(hist_program(fam, port, "".join(kinds), 0 if n > 3 else 1))
+                hp = hist_program(fam, port, "".join(kinds), 0 if n > 3 else 1)
+                # the inverter refuses with every exception code in turn (what a code means to the device does not change
+                # what the caller sees: a rejection, which leaves the failure streak as it is)
+                hp["inv"][0]["sim"]["exc_code"] = (2, 1, 3, 4, 5, 6, 7, 8, 10, 11, 0, 9, 12, 255)[(len(progs) // 4) % 14]
+                progs.append(hp)
         cases += engine.parallel_map("harness.checks_api", "run_hist", progs, procs=16, chunk=20)
         iprogs = []
         for pl in ident_payloads(tier, rnd):
